@@ -518,6 +518,13 @@ func preludeRelevant(s *querySection, rel map[string]bool) bool {
 		}
 		return false
 	}
+	// every theory function the axiom mentions must already occur in the slice (an axiom about len() is useless, and
+	// costly, for a goal that never mentions len())
+	for sym := range s.syms {
+		if strings.HasPrefix(sym, "str.") && sym != "str.empty" && !rel[sym] {
+			return false
+		}
+	}
 	rest := text
 	for {
 		k := strings.Index(rest, ":pattern (")
